@@ -450,10 +450,16 @@ def run_check(mod, tier, seed, replay=None):
     n = mod.CASES[tier]
     streams = []
     t_gen = time.time()
-    cases = mod.gen_cases(rng, n, tier)
-    streams.append(("", mod.CORR_HEADER, mod.CHECK_FN, cases))
-    if hasattr(mod, "extra_streams"):
-        streams.extend(mod.extra_streams(rng, tier))
+    import traceback
+    try:
+        cases = mod.gen_cases(rng, n, tier)
+        streams.append(("", mod.CORR_HEADER, mod.CHECK_FN, cases))
+        if hasattr(mod, "extra_streams"):
+            streams.extend(mod.extra_streams(rng, tier))
+    except Exception:  # an exception escaping the implementation on inputs the harness considers valid
+        tb = traceback.format_exc()
+        print(tb[-1500:], flush=True)
+        out.failures.append(dict(kind="implementation-exception", detail=tb[-3000:]))
     bad_cases, corr_errors, total = [], [], 0
     ambiguous = 0
     for tag, header, check_fn, cs in streams:
